@@ -31,3 +31,26 @@ void gen_case(const uint32_t *mat, int n) {
   PROP(v1 > -MATE_BOUND && v1 < MATE_BOUND, "C14 the static evaluation is strictly inside the non-mate range");
   PROP(v1 == v2, "C13/C14 the evaluation does not depend on the scorer's previous contents and equals the evaluation of the colour-mirrored position");
 }
+
+/* scratch state after setup<WHITE>/setup<BLACK> does not depend on the scratch state before: the members that the scoring functions
+   read (attack sets per piece kind, combined attack set, outposts, king blockers) are fully recomputed.  Sufficient for purity, not
+   necessary: a failure here is confirmed natively before it is reported. */
+void _ZN6engine14PositionScorer5setupILNS_5ColorE0EEEvRKNS_8PositionE(Scorer *, Pos *);
+void _ZN6engine14PositionScorer5setupILNS_5ColorE1EEEvRKNS_8PositionE(Scorer *, Pos *);
+uint32_t ce_field, ce_color, ce_kind;
+void setup_case(const uint32_t *mat, int n) {
+  uint32_t side = nondet_u32() & 1;
+  pos_build(mat, n, side, PB_NO_EP);
+  static Scorer A, B;
+  scratch(&A); scratch(&B);
+  _ZN6engine14PositionScorer5setupILNS_5ColorE0EEEvRKNS_8PositionE(&A, &P); _ZN6engine14PositionScorer5setupILNS_5ColorE1EEEvRKNS_8PositionE(&A, &P);
+  _ZN6engine14PositionScorer5setupILNS_5ColorE0EEEvRKNS_8PositionE(&B, &P); _ZN6engine14PositionScorer5setupILNS_5ColorE1EEEvRKNS_8PositionE(&B, &P);
+  int same = 1;
+  for (int c = 0; c < 2; c++) {
+    for (int k = 1; k < 7; k++) if (A.SC_attacked_by_bb[c][k] != B.SC_attacked_by_bb[c][k]) { same = 0; ce_field = 1; ce_color = c; ce_kind = k; }
+    if (A.SC_attacked_by_piece[c] != B.SC_attacked_by_piece[c]) { same = 0; ce_field = 2; ce_color = c; }
+    if (A.SC_outposts_bb[c] != B.SC_outposts_bb[c]) { same = 0; ce_field = 3; ce_color = c; }
+    if (A.SC_blockers_for_king[c] != B.SC_blockers_for_king[c]) { same = 0; ce_field = 4; ce_color = c; }
+  }
+  PROP(same, "C14 the evaluator's working sets are recomputed from the position alone (no value survives from an earlier evaluation)");
+}
